@@ -1078,19 +1078,63 @@ func Within(d time.Duration, rule, sig string, fn func()) {
 	}
 	done := make(chan struct{})
 	GoHarness("watchdog", func() {
-		tm := time.NewTimer(d)
-		defer tm.Stop()
-		Y("harness:watchdog")
-		select {
-		case <-done:
-			W("harness:watchdog")
-		case <-tm.C:
-			W("harness:watchdog")
+		if IdleTimeout(done, d) {
 			Note(rule, sig, "operation did not return within %v of simulated time; tasks: %v", d, AliveTaskInfo())
 		}
 	})
 	fn()
 	close(done)
+}
+
+// StepCost is the virtual CPU time the scheduler charges for every step of the current run.
+func StepCost() time.Duration {
+	if s := active(); s != nil {
+		return s.delta
+	}
+	return 0
+}
+
+// IdleTimeout waits until done is closed (and returns false) or until d of simulated time has passed
+// in which the simulated CPU was not busy (and returns true). The scheduler charges StepCost() of simulated
+// time for every step it dispatches; with a large step cost a burst of work (a block with thousands of
+// records) takes many simulated seconds although nothing ever waits, and a bound stated in plain simulated
+// time would then fire on a program that is merely busy. Time charged for steps therefore does not count
+// towards d. A program that hangs accumulates idle time (the world sleeps between its events) and is
+// still reported; a world that is saturated for good ends at the step budget instead.
+func IdleTimeout(done <-chan struct{}, d time.Duration) bool {
+	s := active()
+	if s == nil {
+		tm := time.NewTimer(d)
+		defer tm.Stop()
+		select {
+		case <-done:
+			return false
+		case <-tm.C:
+			return true
+		}
+	}
+	start, steps0 := time.Now(), s.steps
+	wait := d
+	for {
+		tm := time.NewTimer(wait)
+		Y("harness:watchdog")
+		select {
+		case <-done:
+			W("harness:watchdog")
+			tm.Stop()
+			return false
+		case <-tm.C:
+			W("harness:watchdog")
+		}
+		idle := time.Since(start) - time.Duration(s.steps-steps0)*s.delta
+		if idle >= d {
+			return true
+		}
+		wait = d - idle
+		if wait < time.Millisecond {
+			wait = time.Millisecond
+		}
+	}
 }
 
 // SleepSim sleeps on the fake clock with scheduling points (for harness files that are
